@@ -40,7 +40,10 @@ PrefixLen == NS + 5 * NR + NM
 \* identity choice tokens: <<"tok","cpk">> = explicit spelling of the user's public key,
 \* <<"tok","spk">> = explicit spelling of the server's public key
 Tok(x) == <<"tok", x>>
-ResolveId(x, cpk, spk) == IF x = Tok("cpk") THEN cpk ELSE IF x = Tok("spk") THEN spk ELSE x
+\* <<"tok","spk3">> = the static public key of ANOTHER setup (setup 3) used as a server NAME: a byte string
+\* that happens to be a valid public key of the group, but is an identity like any other
+ResolveId(x, cpk, spk) == IF x = Tok("cpk") THEN cpk ELSE IF x = Tok("spk") THEN spk
+                          ELSE IF x = Tok("spk3") THEN SPk(3) ELSE x
 
 MCInit == Init /\ phase = 1 /\ nfree = 0
 
